@@ -66,7 +66,7 @@ def build_coq():
         if (not os.path.exists(VMODEL)) or os.path.getmtime(VMODEL) < max(newest_vo, os.path.getmtime(drv)):
             rc, out, err = sh("timeout 900 coqc -Q ../coq SK ../coq/Extract/Extract.v", cwd=mdir)
             if rc != 0: return False, "extraction failed\n" + out + err
-            rc, out, err = sh("ocamlfind ocamlopt -O3 -package zarith,unix -linkpkg -w -a model.mli model.ml driver.ml -o vmodel", cwd=mdir)
+            rc, out, err = sh("ocamlfind ocamlopt -O3 -package zarith,unix -linkpkg -w -a model.mli model.ml driver.ml -o vmodel.new && mv vmodel.new vmodel", cwd=mdir)
             if rc != 0: return False, "ocaml build failed\n" + out + err
         return True, log
 
